@@ -31,7 +31,7 @@ theorem find_of_contains (l : List (String × String)) (x : String)
   exact Option.isSome_iff_exists.mp this
 
 section
-variable (T : TablesOk) {c : Ctx} (hl : LitOk c)
+variable (T : LexOk) {c : Ctx} (hl : LitOk c)
 include T
 
 theorem isRecord_spec (ws : List (List String)) {b : Nat} {s0 : PState} (h : InvB b c s0)
